@@ -293,8 +293,25 @@ where
 pub struct ReadableSystemTime(pub SystemTime);
 impl Display for ReadableSystemTime {
     fn fmt(&self, f: &mut std::fmt::Formatter<'_>) -> std::fmt::Result {
-        let format = DateTime::<Utc>::from(self.0).format("%Y-%m-%d %H:%M:%S%.3f %Z (%s%.9f)");
-        Display::fmt(&format, f)
+        // Split into whole seconds (rounded toward negative infinity) and nanoseconds, as chrono
+        // wants them, without panicking on times chrono cannot represent (it covers roughly
+        // +/- 262,000 years around the epoch, `SystemTime` far more).
+        let (secs, nanos) = match self.0.duration_since(SystemTime::UNIX_EPOCH) {
+            Ok(d) => (i64::try_from(d.as_secs()).ok(), d.subsec_nanos()),
+            Err(e) => {
+                let d = e.duration();
+                let secs = i64::try_from(d.as_secs()).ok().map(|s| -s);
+                if d.subsec_nanos() == 0 {
+                    (secs, 0)
+                } else {
+                    (secs.and_then(|s| s.checked_sub(1)), 1_000_000_000 - d.subsec_nanos())
+                }
+            }
+        };
+        match secs.and_then(|secs| DateTime::<Utc>::from_timestamp(secs, nanos)) {
+            Some(time) => Display::fmt(&time.format("%Y-%m-%d %H:%M:%S%.3f %Z (%s%.9f)"), f),
+            None => write!(f, "(time out of displayable range: {:?})", self.0),
+        }
     }
 }
 impl Debug for ReadableSystemTime {
